@@ -315,6 +315,7 @@ func run(ctx *Ctx) *Result {
 			res.Fail(map[string]any{"frag": "vpn", "pred": "drc_panic"}, "panic: "+pan, c)
 			return
 		}
+		ga := lean.checkGraph(c, out, status)
 		// aaa-server and ldap attribute-map are never created by the tool: a target that needs one the device lacks must be refused
 		missingManual := ""
 		for _, o := range c.spoc.objects() {
@@ -406,6 +407,9 @@ func run(ctx *Ctx) *Result {
 				repointed = true
 			}
 			if err := ex.exec1(cmd); err != nil {
+				if ga != nil && ga.acc && !skipped {
+					res.Disagree("vpn-graph-device", c, "dev.go rejects command "+fmt.Sprint(i)+": "+err.Error(), "NA.Vpn.G.execAll accepts the script")
+				}
 				if la != nil && la.acc && !skipped {
 					res.Disagree("vpn-device", c, "dev.go rejects command "+fmt.Sprint(i)+": "+err.Error(), "NA.Vpn.applyAll accepts the script")
 				}
@@ -432,6 +436,9 @@ func run(ctx *Ctx) *Result {
 		}
 		res.TracesVsImpl++
 		final := ex.d
+		if ga != nil && !ga.acc && !skipped {
+			res.Disagree("vpn-graph-device", c, "dev.go accepts the script", "NA.Vpn.G.execAll rejects it")
+		}
 		if la != nil && !la.acc && !skipped {
 			res.Disagree("vpn-device", c, "dev.go accepts the script", "NA.Vpn.applyAll rejects it")
 		}
@@ -439,6 +446,12 @@ func run(ctx *Ctx) *Result {
 			res.Sample(map[string]any{"device": c.Dev, "netspoc": c.Spoc, "script": out, "mutations": c.Note})
 		}
 		if prop == "C01" {
+			if ga != nil && ga.acc {
+				res.Count("lean:graph-convergence-compared")
+				if conv := final.managedView(managed) == wantView; conv != ga.conv {
+					res.Disagree("vpn-graph-view", c, fmt.Sprintf("dev.go: converged=%v", conv), fmt.Sprintf("NA.Vpn.G.view: converged=%v", ga.conv))
+				}
+			}
 			if la != nil && la.acc {
 				res.Count("lean:convergence-compared")
 				if conv := final.managedView(managed) == wantView; conv != la.conv {
@@ -453,6 +466,16 @@ func run(ctx *Ctx) *Result {
 				res.Fail(sig("leftover_generated_object"), "unreferenced generated objects remain: "+strings.Join(lo, ", ")+"\n-- script\n"+out, c)
 			}
 			out2, err2, st2, pan2 := runDrc(final.print(), c.Spoc)
+			if ga != nil && ga.acc {
+				impl2 := strings.Join(splitLines(out2), "|")
+				if st2 != 0 {
+					impl2 = "abort"
+				}
+				res.Count("lean:graph-second-run-compared")
+				if impl2 != ga.second {
+					res.Disagree("vpn-graph-second-run", c, impl2, ga.second)
+				}
+			}
 			if la != nil && la.acc {
 				impl2 := strings.Join(splitLines(out2), "|")
 				if st2 != 0 {
@@ -476,6 +499,12 @@ func run(ctx *Ctx) *Result {
 			}
 		}
 		if prop == "C07" {
+			if ga != nil && ga.acc && !skipped {
+				res.Count("lean:graph-frame-compared")
+				if same := unmanagedView(final, uSet, managed) == frame0; same != ga.frame {
+					res.Disagree("vpn-graph-frame", c, fmt.Sprintf("dev.go: unmanaged objects untouched=%v", same), fmt.Sprintf("NA.Vpn.G.frame: untouched=%v", ga.frame))
+				}
+			}
 			if got := unmanagedView(final, uSet, managed); got != frame0 {
 				class := "other"
 				if len(shared) > 0 {
@@ -552,6 +581,8 @@ func run(ctx *Ctx) *Result {
 		var c cfgCase
 		if i%4 == 3 {
 			c = g.genCryptoOnly()
+		} else if i%4 == 1 {
+			c = g.genGraph()
 		} else {
 			b := g.genTarget()
 			a, note := g.genDevice(b)
